@@ -222,6 +222,17 @@ def run(res, tier):
         computed = [r for r in rets if not any(a.get("k") == "IfStmt" and "getenv" in facts.ntext(a["c"][0]) for a in _anc(fn, r))]
         for r in computed:
             e = strip(kids(r)[0])
+            # a helper of the library with a single return statement is inlined
+            for _ in range(4):
+                if e.get("k") == "CallExpr" and tbf.callee_name(e) != "max":
+                    hs = [g for g in facts.functions if g["name"] == tbf.callee_name(e) and not g.get("inst") and tbf.body(g) is not None and len(g["params"]) == len(tbf.call_args(e))]
+                    hr = [x for x in walk(tbf.body(hs[0])) if x.get("k") == "ReturnStmt" and kids(x)] if len(hs) == 1 else []
+                    if len(hr) == 1:
+                        e = strip(kids(hr[0])[0])
+                        continue
+                break
+            while e.get("k") in ("CXXStaticCastExpr", "CStyleCastExpr", "CXXFunctionalCastExpr") and kids(e):
+                e = strip(kids(e)[0])
             ok = e.get("k") == "CallExpr" and tbf.callee_name(e) == "max" and any(strip(a).get("k") == "IntegerLiteral" and strip(a).get("val", 0) >= 1 for a in tbf.call_args(e))
             res.instance(R, fn["qname"], facts.loc(r), facts.ntext(e)[:100])
             if not ok:
